@@ -1,7 +1,7 @@
 (* C14 — by default a trailing slash on the request path changes nothing. *)
 From Model Require Import Str Sexp Http Template Table Curly DetectRoute Jsr311 Router.
 From Spec Require Import RouteSpec.
-From Proofs Require Import TemplateFacts RouterProofs.
+From Proofs Require Import TemplateFacts RouterProofs JsrProofs SlashJsrProofs.
 
 (* CurlyRouter, all templates (well-formed or not), every table and request:
    for a path p with at least one non-slash byte, p and p ++ "/" have the same
@@ -30,3 +30,15 @@ Example C14_example :
   tokenize (L "/a/b/") = tokenize (L "/a/b") /\ tokenize (L "/a/b") = [L "a"; L "b"]
   /\ tokenize (L "") <> tokenize (L "/").   (* why the path needs a non-slash byte *)
 Proof. vm_compute. repeat split; discriminate. Qed.
+
+(* RouterJSR311, on the tables the property names for it: no tail wildcard, regex variables that do not match the
+   empty string ([table_plain], evaluated on every generated case): for every path p that is not empty and does not
+   end in a slash, routing p and p + "/" gives the same outcome — the same route function with the same parameters,
+   or the same error with the same Allow list. *)
+Definition C14_jsr_statement : Prop :=
+  forall (O : oracles) (t : table) (req : request) (p : str),
+    t_router t = Jsr311 -> table_plain O t = true -> ends_slash p = false -> p <> [] ->
+    route_request O t (with_path req (p ++ [slash])) = route_request O t (with_path req p).
+Theorem C14_jsr : C14_jsr_statement.
+Proof. exact jsr_trailing_slash. Qed.
+Print Assumptions C14_jsr.
